@@ -308,7 +308,7 @@ func c15Hinted(r *fw.Rec, e *csEntry, name, text string, class string) bool {
 }
 
 func c15(c *fw.Ctx) {
-	c.Rule("registry invariants over every value/name/alias; every registered set and alias with every single-byte code point (exhaustive) and sampled double-byte ranges through hinted writer -> reader with the ECI header confirmed by an independent parse of the raw codewords; non-representable text must be refused; unhinted UTF-8 incl. adversarial byte statistics; ECI numbers 0..1023 plus sampled (thorough: all 0..999999) in every designator length form through the bit-stream parser; decode-side CHARACTER_SET hint on undesignated byte segments; distinct = distinct (class, charset, text / ECI number)")
+	c.Rule("registry invariants over every value/name/alias; every registered set and alias with every single-byte code point (exhaustive) and sampled double-byte ranges through hinted writer -> reader with the ECI header confirmed by an independent parse of the raw codewords; non-representable text must be refused; unhinted UTF-8 incl. adversarial byte statistics and long payloads whose first non-ASCII character comes after 500..2049 bytes; ECI numbers 0..1023 plus sampled (thorough: all 0..999999) in every designator length form through the bit-stream parser; decode-side CHARACTER_SET hint on undesignated byte segments (incl. payloads starting with byte-order-mark, UTF-8- and Shift_JIS-looking byte pairs); distinct = distinct (class, charset, text / ECI number)")
 	c.Assume("'representable' = the golang.org/x/text codec encodes the text and decodes it back unchanged; text that encodes but does not round trip (codec aliases) is don't-care; ECI header demanded only for byte-mode symbols (DESIGN C15)")
 	c.Run("registry", func(r *fw.Rec) { c15Registry(r) })
 
@@ -420,7 +420,17 @@ func c15(c *fw.Ctx) {
 			for rep := 0; rep < 10; rep++ {
 				var sb strings.Builder
 				n := 1 + rng.Intn(40)
-				kind := rng.Intn(7)
+				kind := rng.Intn(8)
+				if kind == 7 {
+					// long payloads: an ASCII prefix whose length straddles round numbers of bytes
+					// (a decoder that inspects only a prefix of the segment must still see what follows),
+					// then multi-byte text; occasionally a multi-byte character across the boundary
+					pre := []int{500, 1000, 1020, 1023, 1024, 1025, 2040, 2047, 2048, 2049}[rng.Intn(10)] + rng.Intn(3) - 1
+					for i := 0; i < pre; i++ {
+						sb.WriteByte(byte(0x20 + rng.Intn(0x5F)))
+					}
+					n = 3 + rng.Intn(20)
+				}
 				for i := 0; i < n; i++ {
 					switch kind {
 					case 0: // half-width katakana look-alikes: U+FF61..U+FF9F encode as EF BD A1..EF BE 9F
@@ -443,6 +453,8 @@ func c15(c *fw.Ctx) {
 						} else {
 							sb.WriteRune(rune(0x400 + rng.Intn(0x100)))
 						}
+					case 7:
+						sb.WriteRune([]rune{0xE9, 0x3042, 0x4E2D, 0x1F600, 0x439}[rng.Intn(5)])
 					default: // CJK
 						sb.WriteRune(rune(0x4E00 + rng.Intn(0x5000)))
 					}
@@ -548,6 +560,60 @@ func c15(c *fw.Ctx) {
 				// and a designator in the symbol wins over the hint
 				r.Tally("decode_hint_honoured")
 			}
+			if e.Kind != 0 {
+				continue
+			}
+			// single-byte sets: payloads that look like something else to a guesser (byte order
+			// marks FE FF / FF FE, UTF-8 looking pairs, Shift_JIS looking pairs) and random bytes
+			rep := csRepertoire(e)
+			enc := func(bs []byte) (string, bool) {
+				u, err := e.Enc.NewDecoder().Bytes(bs)
+				if err != nil {
+					return "", false
+				}
+				back, ok := e.csEncode(string(u))
+				return string(u), ok && string(back) == string(bs)
+			}
+			var payloads [][]byte
+			for _, pre := range [][]byte{{0xFE, 0xFF}, {0xFF, 0xFE}, {0xEF, 0xBB, 0xBF}, {0xC3, 0xA9}, {0x83, 0x41}, {0xE3, 0x81, 0x82}} {
+				payloads = append(payloads, append(append([]byte{}, pre...), []byte("abc d")...))
+				payloads = append(payloads, append(append([]byte{}, pre...), 0x41, 0xE9, 0xFE, 0xFF))
+			}
+			for k := 0; k < 40; k++ {
+				n := 1 + r.Rng.Intn(24)
+				bs := make([]byte, n)
+				for i := range bs {
+					b, _ := e.csEncode(string(rep[r.Rng.Intn(len(rep))]))
+					bs[i] = b[0]
+				}
+				payloads = append(payloads, bs)
+			}
+			for _, bs := range payloads {
+				want, ok := enc(bs)
+				if !ok {
+					continue
+				}
+				var w bitw
+				w.put(0x4, 4)
+				w.put(len(bs), 8)
+				for _, b := range bs {
+					w.put(int(b), 8)
+				}
+				w.put(0, 4)
+				hints := map[gozxing.DecodeHintType]interface{}{gozxing.DecodeHintType_CHARACTER_SET: e.Name}
+				res, err := qrdec.DecodedBitStreamParser_Decode(w.b, v1, qrdec.ErrorCorrectionLevel_L, hints)
+				r.Evals(1)
+				info := map[string]interface{}{"charset": e.Name, "bytes": fmt.Sprintf("%x", bs)}
+				if err != nil {
+					r.Violation("model-mismatch", "qr.parser:decode-hint-rejected", fmt.Sprintf("byte segment %x with CHARACTER_SET=%s hint rejected: %v", bs, e.Name, err), info)
+					return
+				}
+				if res.GetText() != want {
+					r.Violation("model-mismatch", "qr.parser:decode-hint-not-honoured", fmt.Sprintf("byte segment %x with CHARACTER_SET=%s decoded as %q, the character set gives %q", bs, e.Name, res.GetText(), want), info)
+					return
+				}
+				r.Tally("decode_hint_honoured_adversarial_payloads")
+			}
 		}
 		r.Nontrivial("decode-hint")
 	})
@@ -558,5 +624,7 @@ func c15(c *fw.Ctx) {
 	c.Floor("eci_registered_decoded", 20)
 	c.Floor("eci_unregistered_format_error", 1000)
 	c.Floor("decode_hint_honoured", 30)
+	c.Floor("decode_hint_honoured_adversarial_payloads", 400)
+	c.Floor("utf8_nohint_kind_7", 100)
 	c.Floor("single_byte_code_points_covered", 3000)
 }
